@@ -398,6 +398,11 @@ Proof. intros H i. specialize (H i). destruct i; exact H. Qed.
 Lemma set_mvars_wf st m : wf_state st -> wf_map m -> wf_state (set_mvars st m).
 Proof. intros H Hm i. specialize (H i). destruct i; try exact H. exact Hm. Qed.
 
+Lemma set_excl_wf st l : wf_state st -> wf_state (set_excl st l).
+Proof. intros H i. specialize (H i). destruct i; exact H. Qed.
+Lemma set_rid_wf st n : wf_state st -> wf_state (set_rid st n).
+Proof. intros H i. specialize (H i). destruct i; exact H. Qed.
+
 Lemma match_variable_wf st m : wf_state st -> wf_state (match_variable st m).
 Proof.
   intro H. unfold match_variable. apply set_mvarname_wf, set_mvar_wf, set_mvars_wf; [exact H|].
@@ -413,8 +418,11 @@ Proof.
   destruct i; try exact H. cbn. apply map_set1_wf. exact Htx.
 Qed.
 
-Lemma fold_setvar_wf svs : forall st, wf_state st -> wf_state (fold_left apply_setvar svs st).
-Proof. induction svs as [|kv r IH]; cbn; intros st H; [assumption|]. apply IH, apply_setvar_wf, H. Qed.
+Lemma apply_action_wf st a : wf_state st -> wf_state (apply_action st a).
+Proof. intro H. destruct a; cbn [apply_action]; [apply apply_setvar_wf | apply set_excl_wf]; exact H. Qed.
+
+Lemma fold_action_wf acts : forall st, wf_state st -> wf_state (fold_left apply_action acts st).
+Proof. induction acts as [|a r IH]; cbn [fold_left]; intros st H; [assumption|]. apply IH, apply_action_wf, H. Qed.
 
 Lemma build1_wf q : wf_state (build1 q).
 Proof.
@@ -437,17 +445,44 @@ Qed.
 Lemma link_post_wf X ord st l : wf_state st -> wf_state (link_post X ord st l).
 Proof.
   intro H. unfold link_post, link_eval. destruct (l_kind l); cbn [snd].
-  - apply fold_setvar_wf, match_variable_wf, H.
+  - apply fold_action_wf, match_variable_wf, H.
   - apply eval_targets_wf, H.
 Qed.
 
 (* ------------------------------------------------------------------------------------ *)
 (* one link                                                                              *)
 (* ------------------------------------------------------------------------------------ *)
+Lemma is_exception_app X a b k : is_exception X (a ++ b) k = is_exception X a k || is_exception X b k.
+Proof. unfold is_exception. apply existsb_app. Qed.
+
+(* GetField with the run-time exclusions of the rule being evaluated appended (doEvaluate) *)
+Theorem get_field_rt_spec X ord st t : wf_state st -> ok_oracle ord ->
+  Permutation (get_field X ord st (with_rt st (compile_target X t))) (spec_selects_rt X st t).
+Proof.
+  intros Hwf Hord. pose proof (get_field_selected X ord st t Hwf Hord) as HP.
+  unfold get_field, spec_selects_rt, with_rt. cbn [c_count c_var c_excs c_keystr].
+  change (field_matches X ord (collection st (c_var (compile_target X t)))
+            (mk_cparams (c_count (compile_target X t)) (c_var (compile_target X t)) (c_keystr (compile_target X t))
+                        (c_keyrx (compile_target X t)) (c_excs (compile_target X t) ++ rt_excs st (c_var (compile_target X t)))))
+    with (field_matches X ord (collection st (rt_var t)) (compile_target X t)).
+  replace (c_count (compile_target X t)) with (rt_count t) by reflexivity.
+  replace (c_var (compile_target X t)) with (rt_var t) in * by reflexivity.
+  assert (HQ : Permutation
+            (filter (fun e => negb (is_exception X (c_excs (compile_target X t) ++ rt_excs st (rt_var t)) (key_lower (fst e))))
+                    (field_matches X ord (collection st (rt_var t)) (compile_target X t)))
+            (spec_selected_rt X st t)).
+  { unfold spec_selected_rt.
+    erewrite filter_ext; [|intro e; rewrite is_exception_app, negb_orb; reflexivity].
+    rewrite <- filter_filter. apply Permutation_filter. exact HP. }
+  destruct (rt_count t).
+  - rewrite (Permutation_length HQ). apply Permutation_refl.
+  - apply Permutation_map, HQ.
+Qed.
+
 Lemma target_matches_spec X ord st l neg o t : wf_state st -> ok_oracle ord ->
   Permutation (target_matches X ord st l neg o (compile_target X t))
-              (flat_map (satisfying X l neg o) (spec_selects X st t)).
-Proof. intros Hwf Hord. unfold target_matches. apply Permutation_flat_map, get_field_spec; assumption. Qed.
+              (flat_map (satisfying X l neg o) (spec_selects_rt X st t)).
+Proof. intros Hwf Hord. unfold target_matches. apply Permutation_flat_map, get_field_rt_spec; assumption. Qed.
 
 Lemma eval_targets_spec X ord l neg o : ok_oracle ord -> forall ts st i, wf_state st ->
   Permutation (fst (eval_targets X ord st l neg o i (map (compile_target X) ts)))
@@ -484,15 +519,19 @@ Qed.
 
 (* ---- links that read none of the MATCHED_* variables: the declarative reading ---- *)
 Definition same_but_mvar (st st' : state) : Prop :=
-  forall v, matched_family v = false -> spec_entries st' v = spec_entries st v.
+  (forall v, matched_family v = false -> spec_entries st' v = spec_entries st v)
+  /\ s_excl st' = s_excl st /\ s_rid st' = s_rid st.
 
 Lemma same_refl st : same_but_mvar st st.
-Proof. intros v _. reflexivity. Qed.
+Proof. split; [intros v _; reflexivity | split; reflexivity]. Qed.
 Lemma same_trans a b c : same_but_mvar a b -> same_but_mvar b c -> same_but_mvar a c.
-Proof. intros H1 H2 v Hv. rewrite H2, H1; auto. Qed.
+Proof.
+  intros [H1 [E1 R1]] [H2 [E2 R2]]. split; [|split; congruence].
+  intros v Hv. rewrite H2, H1; auto.
+Qed.
 
 Lemma match_variable_same st m : same_but_mvar st (match_variable st m).
-Proof. intros v Hv. destruct v; try reflexivity; discriminate. Qed.
+Proof. split; [|split; reflexivity]. intros v Hv. destruct v; try reflexivity; discriminate. Qed.
 
 Lemma fold_match_same ms : forall st, same_but_mvar st (fold_left match_variable ms st).
 Proof.
@@ -515,14 +554,15 @@ Proof.
 Qed.
 
 Lemma spec_selects_same X st st' t : same_but_mvar st st' -> matched_family (rt_var t) = false ->
-  spec_selects X st' t = spec_selects X st t.
+  spec_selects_rt X st' t = spec_selects_rt X st t.
 Proof.
-  intros Hs Hv. unfold spec_selects, spec_selected. rewrite (Hs _ Hv). reflexivity.
+  intros [Hs [He Hr]] Hv. unfold spec_selects_rt, spec_selected_rt, spec_selected, rt_excluded, rt_excs.
+  rewrite (Hs _ Hv), He, Hr. reflexivity.
 Qed.
 
 Lemma spec_targets_decl X ord l neg o : forall ts st st' i, same_but_mvar st st' ->
   Forall (fun t => matched_family (rt_var t) = false) ts ->
-  spec_targets X ord st' l neg o i ts = flat_map (fun t => flat_map (satisfying X l neg o) (spec_selects X st t)) ts.
+  spec_targets X ord st' l neg o i ts = flat_map (fun t => flat_map (satisfying X l neg o) (spec_selects_rt X st t)) ts.
 Proof.
   induction ts as [|t r IH]; intros st st' i Hs HF; cbn [spec_targets flat_map]; [reflexivity|].
   inversion HF as [|? ? Ht HFr]; subst. rewrite (spec_selects_same X st st' t Hs Ht). f_equal.
@@ -531,17 +571,64 @@ Qed.
 
 (* for such a link the exact match data is the order-free, state-free one *)
 Theorem spec_link_matches_decl X ord st st' l : same_but_mvar st st' -> reads_mvar l = false ->
-  spec_link_matches_t X ord st' l = spec_link_matches X st l.
+  spec_link_matches_t X ord st' l = spec_link_matches_rt X st l.
 Proof.
-  intros Hs Hr. unfold spec_link_matches_t, spec_link_matches. destruct (l_kind l) as [svs|neg o]; [reflexivity|].
+  intros Hs Hr. unfold spec_link_matches_t, spec_link_matches_rt. destruct (l_kind l) as [svs|neg o]; [reflexivity|].
   apply spec_targets_decl; [exact Hs|]. rewrite Forall_forall. intros t Ht. eapply reads_mvar_false; eassumption.
 Qed.
 
-Theorem link_matches_spec X ord st l : wf_state st -> ok_oracle ord -> reads_mvar l = false ->
-  Permutation (link_matches X ord st l) (spec_link_matches X st l).
+Theorem link_matches_spec_rt X ord st l : wf_state st -> ok_oracle ord -> reads_mvar l = false ->
+  Permutation (link_matches X ord st l) (spec_link_matches_rt X st l).
 Proof.
   intros Hwf Hord Hr. rewrite <- (spec_link_matches_decl X ord st st l (same_refl st) Hr).
   apply link_matches_spec_t; assumption.
+Qed.
+
+Lemma spec_link_nonempty_rt X st l : spec_link_matches_rt X st l <> [] <-> link_holds_rt X st l.
+Proof.
+  unfold spec_link_matches_rt, link_holds_rt. destruct (l_kind l) as [svs|neg o].
+  - split; [auto | discriminate].
+  - split.
+    + intro H. destruct (flat_map _ _) as [|m ms] eqn:E; [contradiction|].
+      assert (Hin : In m (m :: ms)) by (left; reflexivity). rewrite <- E in Hin.
+      apply in_flat_map in Hin as [t [Ht Hin]]. apply in_flat_map in Hin as [md [Hmd Hin]].
+      unfold satisfying in Hin. apply in_map_iff in Hin as [cv [_ Hcv]]. apply filter_In in Hcv as [Hcv Hop].
+      exists t, md, cv. auto.
+    + intros [t [md [cv [Ht [Hmd [Hcv Hop]]]]]] E.
+      assert (Hin : In (fst md, cv) (flat_map (fun t => flat_map (satisfying X l neg o) (spec_selects_rt X st t)) (targets_of_items (l_items l)))).
+      { apply in_flat_map. exists t; split; [assumption|]. apply in_flat_map. exists md; split; [assumption|].
+        unfold satisfying. apply in_map_iff. exists cv; split; [reflexivity|]. apply filter_In; split; assumption. }
+      rewrite E in Hin. contradiction.
+Qed.
+
+Lemma link_holds_decl X ord st st' l : same_but_mvar st st' -> reads_mvar l = false ->
+  (link_holds_t X ord st' l <-> link_holds_rt X st l).
+Proof.
+  intros Hs Hr. rewrite <- spec_link_nonempty_rt. unfold link_holds_t.
+  rewrite (spec_link_matches_decl X ord st st' l Hs Hr).
+  unfold spec_link_matches_rt. destruct (l_kind l) as [svs|neg o]; [split; [discriminate | auto]|].
+  split.
+  - intros [md Hin] E. rewrite E in Hin. destruct Hin.
+  - intro H. destruct (flat_map _ _) as [|m ms]; [contradiction|]. exists m. left; reflexivity.
+Qed.
+
+(* no run-time exclusion recorded: the rt-aware specification is the plain one *)
+Lemma spec_selects_no_rt X st t : s_excl st = [] -> spec_selects_rt X st t = spec_selects X st t.
+Proof.
+  intro H. unfold spec_selects_rt, spec_selects, spec_selected_rt, rt_excluded, rt_excs. rewrite H. cbn [filter map existsb negb].
+  rewrite filter_true. reflexivity.
+Qed.
+
+Lemma spec_link_matches_no_rt X st l : s_excl st = [] -> spec_link_matches_rt X st l = spec_link_matches X st l.
+Proof.
+  intro H. unfold spec_link_matches_rt, spec_link_matches. destruct (l_kind l); [reflexivity|].
+  apply flat_map_ext. intro t. rewrite (spec_selects_no_rt X st t H). reflexivity.
+Qed.
+
+Theorem link_matches_spec X ord st l : wf_state st -> ok_oracle ord -> reads_mvar l = false -> s_excl st = [] ->
+  Permutation (link_matches X ord st l) (spec_link_matches X st l).
+Proof.
+  intros Hwf Hord Hr He. rewrite <- (spec_link_matches_no_rt X st l He). apply link_matches_spec_rt; assumption.
 Qed.
 
 Lemma spec_link_nonempty X st l : spec_link_matches X st l <> [] <-> link_holds X st l.
@@ -561,15 +648,9 @@ Proof.
       rewrite E in Hin. contradiction.
 Qed.
 
-Lemma link_holds_decl X ord st st' l : same_but_mvar st st' -> reads_mvar l = false ->
-  (link_holds_t X ord st' l <-> link_holds X st l).
+Lemma link_holds_no_rt X st l : s_excl st = [] -> (link_holds_rt X st l <-> link_holds X st l).
 Proof.
-  intros Hs Hr. rewrite <- spec_link_nonempty. unfold link_holds_t.
-  rewrite (spec_link_matches_decl X ord st st' l Hs Hr).
-  unfold spec_link_matches. destruct (l_kind l) as [svs|neg o]; [split; [discriminate | auto]|].
-  split.
-  - intros [md Hin] E. rewrite E in Hin. destruct Hin.
-  - intro H. destruct (flat_map _ _) as [|m ms]; [contradiction|]. exists m. left; reflexivity.
+  intro H. rewrite <- spec_link_nonempty_rt, <- spec_link_nonempty, (spec_link_matches_no_rt X st l H). tauto.
 Qed.
 
 Lemma link_post_same X ord st l : is_action l = false -> same_but_mvar st (link_post X ord st l).
@@ -629,7 +710,7 @@ Qed.
 Theorem chain_holds_declarative X ord ls : forall st st' lvl,
   same_but_mvar st st' ->
   Forall (fun l => reads_mvar l = false /\ is_action l = false) ls ->
-  (chain_holds X ord st' lvl ls <-> Forall (link_holds X st) ls).
+  (chain_holds X ord st' lvl ls <-> Forall (link_holds_rt X st) ls).
 Proof.
   induction ls as [|l r IH]; intros st st' lvl Hs HF; cbn [chain_holds].
   - split; auto.
@@ -649,12 +730,21 @@ Proof.
   unfold rule_fires, eval_rule. destruct (fst (eval_chain X ord st 0 (rule_links r))); split; congruence.
 Qed.
 
-Theorem rule_fires_declarative X ord st r : wf_state st -> ok_oracle ord ->
+Theorem rule_fires_declarative_rt X ord st r : wf_state st -> ok_oracle ord ->
   Forall (fun l => reads_mvar l = false /\ is_action l = false) (rule_links r) ->
-  (rule_fires X ord st r = true <-> Forall (link_holds X st) (rule_links r)).
+  (rule_fires X ord st r = true <-> Forall (link_holds_rt X st) (rule_links r)).
 Proof.
   intros Hwf Hord HF. rewrite rule_fires_iff by assumption.
   apply chain_holds_declarative; [apply same_refl | assumption].
+Qed.
+
+(* the same when no run-time exclusion has been recorded in the transaction *)
+Theorem rule_fires_declarative X ord st r : wf_state st -> ok_oracle ord -> s_excl st = [] ->
+  Forall (fun l => reads_mvar l = false /\ is_action l = false) (rule_links r) ->
+  (rule_fires X ord st r = true <-> Forall (link_holds X st) (rule_links r)).
+Proof.
+  intros Hwf Hord He HF. rewrite (rule_fires_declarative_rt X ord st r Hwf Hord HF).
+  split; intro H; (eapply Forall_impl; [|exact H]); intros l Hl; apply (link_holds_no_rt X st l He); exact Hl.
 Qed.
 
 Theorem rule_matchdata_exact X ord st r mds st' : wf_state st -> ok_oracle ord ->
@@ -673,7 +763,7 @@ Theorem phase_order X ord ph rules : forall st i,
 Proof.
   induction rules as [|r rest IH]; intros st i; cbn [eval_rules filter]; [constructor|].
   destruct (in_phase ph r); [|apply IH].
-  destruct (eval_rule X (sub ord i) (set_mvars st []) r) as [res st'].
+  destruct (eval_rule X (sub ord i) (rule_start st r) r) as [res st'].
   specialize (IH st' (S i)). destruct (eval_rules X ord st' ph (S i) rest) as [out st''].
   cbn [fst map] in *. destruct res as [mds|]; [destruct (r_id r =? 0)|]; cbn [map fst]; constructor; exact IH.
 Qed.
@@ -684,21 +774,21 @@ Theorem phase_exact X ord ph rules : forall st i,
 Proof.
   induction rules as [|r rest IH]; intros st i; cbn [eval_rules spec_fired]; [reflexivity|].
   destruct (in_phase ph r); cbn [andb]; [|apply IH].
-  unfold rule_fires. destruct (eval_rule X (sub ord i) (set_mvars st []) r) as [res st']. cbn [fst snd].
+  unfold rule_fires. destruct (eval_rule X (sub ord i) (rule_start st r) r) as [res st']. cbn [fst snd].
   specialize (IH st' (S i)). destruct (eval_rules X ord st' ph (S i) rest) as [out st''].
   cbn [fst] in *. destruct res as [mds|]; cbn [andb]; [|exact IH].
   destruct (r_id r =? 0); cbn [negb map fst app]; [exact IH | f_equal; exact IH].
 Qed.
 
-Lemma reset_wf st : wf_state st -> wf_state (set_mvars st []).
-Proof. intro H. apply set_mvars_wf; [exact H | apply wf_map_nil]. Qed.
+Lemma reset_wf st r : wf_state st -> wf_state (rule_start st r).
+Proof. intro H. apply set_rid_wf, set_mvars_wf; [exact H | apply wf_map_nil]. Qed.
 
 Lemma eval_rules_wf X ord ph rules : forall st i, wf_state st -> wf_state (snd (eval_rules X ord st ph i rules)).
 Proof.
   induction rules as [|r rest IH]; intros st i Hwf; cbn [eval_rules]; [assumption|].
   destruct (in_phase ph r); [|apply IH, Hwf].
-  pose proof (eval_chain_wf X (sub ord i) (rule_links r) (set_mvars st []) 0%nat (reset_wf st Hwf)) as Hw. unfold eval_rule.
-  destruct (eval_chain X (sub ord i) (set_mvars st []) 0 (rule_links r)) as [res st']. cbn in Hw.
+  pose proof (eval_chain_wf X (sub ord i) (rule_links r) (rule_start st r) 0%nat (reset_wf st r Hwf)) as Hw. unfold eval_rule.
+  destruct (eval_chain X (sub ord i) (rule_start st r) 0 (rule_links r)) as [res st']. cbn in Hw.
   specialize (IH st' (S i) Hw). destruct (eval_rules X ord st' ph (S i) rest) as [out st'']. exact IH.
 Qed.
 
@@ -712,11 +802,11 @@ Theorem fired_sound X ord ph rules : ok_oracle ord -> forall st i id mds, wf_sta
 Proof.
   intro Hord. induction rules as [|r rest IH]; intros st i id mds Hwf; cbn [eval_rules]; [intros []|].
   destruct (in_phase ph r) eqn:Hph.
-  - pose proof (reset_wf st Hwf) as Hwf0.
-    pose proof (eval_chain_wf X (sub ord i) (rule_links r) (set_mvars st []) 0%nat Hwf0) as Hw.
-    pose proof (chain_fires_iff X (sub ord i) (rule_links r) (sub_ok ord i Hord) (set_mvars st []) 0%nat Hwf0) as Hf.
-    pose proof (chain_matchdata_exact X (sub ord i) (rule_links r) (sub_ok ord i Hord) (set_mvars st []) 0%nat) as Hm.
-    unfold eval_rule. destruct (eval_chain X (sub ord i) (set_mvars st []) 0 (rule_links r)) as [res st'] eqn:Er. cbn [fst snd] in Hw, Hf.
+  - pose proof (reset_wf st r Hwf) as Hwf0.
+    pose proof (eval_chain_wf X (sub ord i) (rule_links r) (rule_start st r) 0%nat Hwf0) as Hw.
+    pose proof (chain_fires_iff X (sub ord i) (rule_links r) (sub_ok ord i Hord) (rule_start st r) 0%nat Hwf0) as Hf.
+    pose proof (chain_matchdata_exact X (sub ord i) (rule_links r) (sub_ok ord i Hord) (rule_start st r) 0%nat) as Hm.
+    unfold eval_rule. destruct (eval_chain X (sub ord i) (rule_start st r) 0 (rule_links r)) as [res st'] eqn:Er. cbn [fst snd] in Hw, Hf.
     specialize (IH st' (S i) id mds Hw). destruct (eval_rules X ord st' ph (S i) rest) as [out st''].
     cbn [fst] in *. intro Hin.
     assert (Hrest : In (id, mds) out -> exists r0 j st0, In r0 (r :: rest) /\ r_id r0 = id /\ id <> 0 /\ in_phase ph r0 = true
@@ -725,10 +815,46 @@ Proof.
     { intro H. destruct (IH H) as [r0 [j [st0 [H1 H2]]]]. exists r0, j, st0. split; [right; assumption | assumption]. }
     destruct res as [m|]; [|auto]. destruct (r_id r =? 0) eqn:Eid; [auto|].
     destruct Hin as [Heq|Hin]; [|auto]. inversion Heq; subst. clear Hrest IH.
-    exists r, i, (set_mvars st []). split; [left; reflexivity|]. split; [reflexivity|]. split; [apply N.eqb_neq, Eid|].
+    exists r, i, (rule_start st r). split; [left; reflexivity|]. split; [reflexivity|]. split; [apply N.eqb_neq, Eid|].
     split; [exact Hph|]. split; [exact Hwf0|]. split; [apply Hf; discriminate | eapply Hm; [exact Hwf0 | reflexivity]].
   - intro Hin. destruct (IH st (S i) id mds Hwf Hin) as [r0 [j [st0 [H1 H2]]]].
     exists r0, j, st0. split; [right; assumption | assumption].
+Qed.
+
+(* SecRuleRemoveById keeps the configuration order of the remaining rules *)
+Lemma subseq_refl {A} (l : list A) : subseq l l.
+Proof. induction l; constructor; assumption. Qed.
+
+Lemma subseq_trans {A} (b c : list A) : subseq b c -> forall a, subseq a b -> subseq a c.
+Proof.
+  induction 1 as [|x b c Hbc IH|x b c Hbc IH]; intros a Hab.
+  - exact Hab.
+  - inversion Hab; subst; [apply ss_take | apply ss_skip]; apply IH; assumption.
+  - apply ss_skip, IH, Hab.
+Qed.
+
+Lemma filter_subseq {A} (f : A -> bool) l : subseq (filter f l) l.
+Proof. induction l as [|x l IH]; cbn; [constructor|]. destruct (f x); constructor; exact IH. Qed.
+
+Lemma delete_by_id_subseq id rules : subseq (delete_by_id id rules) rules.
+Proof.
+  induction rules as [|r rest IH]; cbn; [constructor|].
+  destruct (r_id r =? id); [apply ss_skip, subseq_refl | apply ss_take, IH].
+Qed.
+
+Theorem remove_rules_subseq rms : forall rules, subseq (remove_rules rms rules) rules.
+Proof.
+  unfold remove_rules. induction rms as [|rm r IH]; intro rules; cbn [fold_left]; [apply subseq_refl|].
+  eapply subseq_trans; [|apply IH]. destruct rm; cbn [apply_removal]; [apply delete_by_id_subseq | apply filter_subseq].
+Qed.
+
+(* a removed id is gone (ids being unique), every other rule stays *)
+Lemma delete_by_id_other id rules r : r_id r <> id -> (In r (delete_by_id id rules) <-> In r rules).
+Proof.
+  intro Hne. induction rules as [|x rest IH]; cbn; [tauto|].
+  destruct (r_id x =? id) eqn:E.
+  - apply N.eqb_eq in E. split; [auto|]. intros [->|H]; [contradiction | exact H].
+  - cbn. rewrite IH. tauto.
 Qed.
 
 (* ------------------------------------------------------------------------------------ *)
